@@ -56,7 +56,7 @@ def cases(tier, seed):
     Nc = 4 if tier == "quick" else 5
     for klay in compositions(Nc, 2, 2):
         for vlay in compositions(Nc, 2 if tier == "quick" else 3, 2):
-            for f in ("sum", "first", "max"):
+            for f in ("sum", "first", "last", "max", "min", "count"):
                 out.append({"kind": "layout", "func": f, "N": Nc, "G": 2, "key_chunks": klay, "value_chunks": vlay, "dtype": "float64",
                             "name": f"chunk layouts:GroupBy.{f}/key chunks {'+'.join(map(str, klay))} x value chunks {'+'.join(map(str, vlay))}"})
     return out
